@@ -113,3 +113,12 @@ Definition pad_split (m : list (Z * Z)) : option (nat * list (Z * Z) * list (Z *
       else let axis := if has_b then 0%nat else 3%nat in Some (axis, keep_row axis m, drop_row axis m)
   | _ => None
   end.
+
+(* ---------- convert_avg_pool_to_conv2d: an average pool with stride >= 4 as a convolution ---------- *)
+(* the kernel the code writes is [h, w, depth, depth] with ones where input channel = output channel: every output
+   channel sums its own input channel over the window; the division by h * w is the weights' scale 1 / (h * w) *)
+Definition diag_weight (ci co : nat) : Z := if Nat.eqb ci co then 1 else 0.
+Definition channel_mix (depth : nat) (wt : nat -> nat -> Z) (f : nat -> Z) (co : nat) : Z :=
+  zsum (map (fun ci => wt ci co * f ci) (seq 0 depth)).
+Definition diag_plane (depth : nat) : list (list Z) :=
+  map (fun ci => map (fun co => diag_weight ci co) (seq 0 depth)) (seq 0 depth).
